@@ -39,6 +39,60 @@ class _FakePipe:
         return None
 
 
+class _FakeTools:
+    """stands in for BOTH external programs: `ffprobe` (prints the stream entries of a clip with a non-integral frame rate) and
+    `ffmpeg` (delivers raw frames from the first frame whose presentation time is at or after the -ss position)"""
+
+    n_frames, num, den = 1600, 30000, 1001
+
+    def __init__(self, command, **kw):
+        self.stdin = None
+        self.stderr = io.BytesIO(b"")
+        if "-show_entries" in command:
+            txt = "width=%d\nheight=%d\navg_frame_rate=%d/%d\nduration=%.6f\nnb_read_frames=%d\n" % (
+                W, H, self.num, self.den, self.n_frames * self.den / float(self.num), self.n_frames)
+            self.stdout = io.BytesIO(txt.encode())
+            return
+        start = 0
+        if "-ss" in command:
+            import math
+
+            t = float(command[command.index("-ss") + 1])
+            start = max(0, int(math.ceil(t * self.num / float(self.den) - 1e-6)))
+        self.stdout = io.BytesIO(b"".join(bytes([k % 251]) * (H * W * 3) for k in range(start, self.n_frames)))
+
+    def poll(self):
+        return None
+
+    def wait(self):
+        return 0
+
+
+def check_video_probe():
+    """the whole import path (the stream entries are PARSED, not mocked) for a clip of 30000/1001 frames per second: far into the
+    clip, reads that make the reader seek still land on the frame that was asked for"""
+    import menpo.io.input.video as mv
+
+    try:
+        with mock.patch.object(mv.sp, "Popen", _FakeTools):
+            infos = mv.video_infos_ffprobe("clip.mp4")
+            want_fps = _FakeTools.num / float(_FakeTools.den)
+            if abs(float(infos["fps"]) - want_fps) > 1e-9 or int(infos["n_frames"]) != _FakeTools.n_frames:
+                return {"what": "the stream entries of a %d/%d fps clip are read as fps=%r, n_frames=%r" % (_FakeTools.num, _FakeTools.den, infos.get("fps"), infos.get("n_frames"))}
+            reader = mv.FFMpegVideoReader("clip.mp4", normalize=False)
+            for k in (1300, 1100, 1599, 1001, 3, 1450):
+                got = int(reader[k][0, 0, 0])
+                if got != k % 251:
+                    return {"what": "frame %d of a %d/%d fps clip read after a seek is frame %d (mod 251: %d)" % (k, _FakeTools.num, _FakeTools.den, k, got)}
+    except Exception as e:
+        from ..core import from_library
+
+        if not from_library(e):
+            raise
+        return {"what": "%s raised by menpo while a clip with a fractional frame rate was read: %s" % (type(e).__name__, str(e)[:120])}
+    return None
+
+
 def replay(args):
     n_frames, hist = args
     import menpo.io.input.video as mv
